@@ -22,6 +22,10 @@ impl TokBase {
     pub fn mint(e: &Env, to: Address, amount: i128) {
         Base::mint(e, &to, amount);
     }
+    /// the library's low-level balance / supply primitive (public, un-gated, no event)
+    pub fn raw_update(e: &Env, from: Option<Address>, to: Option<Address>, amount: i128) {
+        Base::update(e, from.as_ref(), to.as_ref(), amount);
+    }
 }
 
 #[contractimpl(contracttrait)]
